@@ -135,6 +135,24 @@ async fn main() {
                         g.w.immutable_up().await;
                     }
                 }
+                // … and an epoch change: everybody registers for the next key, the epoch moves, two more rounds. The
+                // aggregator must certify in the new epoch without manual repair (a round lost for good in the
+                // interrupted epoch shows up here as an epoch gap at the latest).
+                let certs_before_epoch_change = g.w.last_cert_count;
+                let e_now = g.w.time_point().await.epoch.0;
+                for q in 0..g.w.n() {
+                    g.w.register(q, e_now + 1).await;
+                }
+                g.w.epoch_up(1).await;
+                for _ in 0..3 {
+                    g.w.tick().await;
+                }
+                for _ in 0..2 {
+                    for _ in 0..5 {
+                        g.drive().await;
+                    }
+                }
+                let certs_after_epoch_change = g.w.last_cert_count;
                 g.w.check_store("after crash, restart and continuation").await;
                 let tag = format!("{}{}", CRASH_POINTS[p], if fired { "" } else { ":not-fired" });
                 let req = g.w.request("c15.run");
@@ -151,6 +169,23 @@ async fn main() {
                         }
                     }
                     fails.push((c.clone(), what.clone()));
+                }
+                if fired {
+                    // the interrupted round is completed or superseded
+                    if let Some(e) = interrupted {
+                        let d = g.w.last_dump.clone();
+                        let disc = mithril_common::entities::SignedEntityTypeDiscriminants::from(&g.w.entities[e]);
+                        let completed = d.certs.iter().any(|c| c.ent == Some(e));
+                        let superseded = d.certs.iter().any(|c| c.ent.map(|x| x > e && mithril_common::entities::SignedEntityTypeDiscriminants::from(&g.w.entities[x]) == disc).unwrap_or(false));
+                        if !completed && !superseded {
+                            fails.push(("round-lost".into(), format!("entity {} ({:?}), interrupted at {}, is neither certified nor superseded by a later certified beacon of its type after restart, three productive rounds, an epoch change and two more rounds", e, g.w.entities[e], CRASH_POINTS[p])));
+                        }
+                    }
+                    if !healthy {
+                        fails.push(("blocked-after-crash".into(), format!("after the crash at {}, restart and an epoch change the aggregator is in state {}", CRASH_POINTS[p], g.w.tester.runtime.state_label())));
+                    } else if certs_after_epoch_change <= certs_before_epoch_change {
+                        fails.push(("no-progress".into(), format!("no certificate was produced in the epoch following the crash at {} ({} certificates before and after the epoch change)", CRASH_POINTS[p], certs_before_epoch_change)));
+                    }
                 }
                 if healthy && fired && g.w.last_cert_count <= certs_at_crash {
                     fails.push(("no-progress".into(), format!("no certificate was produced after the crash at {} and restart ({} certificates before and after the continuation)", CRASH_POINTS[p], certs_at_crash)));
